@@ -402,7 +402,18 @@ def _relative_rois(
     padding: int,
     align: Optional[int],
 ):
-    _XY = tr.back(unstack_xy(gbox_boundary(dst, pts_per_side)))
+    # samples on the very edge of dst can land a rounding error outside of the
+    # domain of its projection (tile ending on the antimeridian) and then wrap
+    # around to the other side, so also sample along the centers of the
+    # outermost pixels
+    ny, nx = dst.shape
+    pts = np.concatenate(
+        [
+            gbox_boundary(dst, pts_per_side),
+            roi_boundary(np.s_[0.5 : ny - 0.5, 0.5 : nx - 0.5], pts_per_side),
+        ]
+    )
+    _XY = tr.back(unstack_xy(pts))
     roi_src = roi_from_points(stack_xy(_XY), src.shape, padding, align=align)
 
     if roi_is_empty(roi_src):
